@@ -158,10 +158,11 @@ class Builder:
         return {"an": an, "the": the, "infer": infer}[quant](d)
 
 
-def build(q, world, inst, mode="query"):
+def build(q, world, inst, mode="query", predeclare=()):
     """Returns (query object, builder). Runs inside symbolic_mode() / rule_mode(), as a user would write it."""
     b = Builder(world, inst)
     with (rule_mode() if mode == "rule" else symbolic_mode()):
+        b.declare(predeclare)
         obj = b.query(q)
     return obj, b
 
